@@ -54,6 +54,28 @@ def _():
     c = C("!=1.2.dev1+1 , ==1.2.dev1+1")
     return c.is_empty() and not C(">1.2.dev1+1").allows_any(V("1.2.dev1+1")) and str(C(">=1.2.3+local").intersect(V("1.2.3"))) == ">=1.2.3+local,<1.2.4"
 
+def GC(s):
+    from poetry.core.constraints.generic import parse_constraint
+    return parse_constraint(s)
+@w("D24")
+def _():
+    from poetry.core.constraints.generic import Constraint
+    a, b = Constraint("linux", "!="), Constraint("win32", "not in")
+    # values without 'win32' inside include 'linux' itself, which != linux rejects
+    return not a.allows_all(b) and Constraint("xwin32y", "!=").allows_all(b)
+@w("D12a")
+def _():
+    u = GC("!=a,!=b").union(GC("!=c,!=d"))
+    return u.is_any()
+@w("D25")
+def _():
+    from poetry.core.constraints.generic import parse_extra_constraint
+    for f in (GC, parse_extra_constraint):
+        try: f("!==x")
+        except KeyError: return False
+        except ValueError: pass
+    return True
+
 if __name__ == "__main__":
     ids = sys.argv[1:] or list(W)
     bad = 0
